@@ -149,6 +149,40 @@ func ruleCoreCount(p *core.Program) []core.Obligation {
 								continue
 							}
 						}
+						// handed to a callback parameter (newShard(i, numShards)): followed into the closures the
+						// callers pass for that parameter
+						if prm, isParam := x.Call.Value.(*ssa.Parameter); isParam {
+							h := prm.Parent()
+							pidx := -1
+							for i, q := range h.Params {
+								if q == prm {
+									pidx = i
+								}
+							}
+							followed := 0
+							for ai, a := range x.Call.Args {
+								if a != v {
+									continue
+								}
+								for _, caller := range p.Funcs {
+									core.EachInstr(caller, func(_ *ssa.BasicBlock, _ int, ci ssa.Instruction) {
+										c, ok := ci.(*ssa.Call)
+										if !ok || c.Call.StaticCallee() != h || pidx < 0 || pidx >= len(c.Call.Args) {
+											return
+										}
+										if mc, ok := c.Call.Args[pidx].(*ssa.MakeClosure); ok {
+											if cf, ok := mc.Fn.(*ssa.Function); ok && ai < len(cf.Params) {
+												followed++
+												walk(cf.Params[ai])
+											}
+										}
+									})
+								}
+							}
+							if followed > 0 {
+								continue
+							}
+						}
 						bad = "passed to " + strings.ReplaceAll(callee, core.Module+"/", "") + " at " + p.Pos(x.Pos())
 					case *ssa.Store:
 						bad = "stored at " + p.Pos(x.Pos())
